@@ -33,8 +33,21 @@ def clause_key(rec):
     return '%s|%s|%s' % (rec['_task']['unit'], rec['_task']['case'].split('|')[0], re.sub(r'#\d+$', '', rec['clause']))
 
 
+_TIER = ['quick']
+
+
+def _bpath(prop):
+    """baseline of the tier being run: the thorough tier (larger bounded sizes, other budgets) has its own file; without one it falls
+    back to the quick baseline, whose clause rule then only covers the tasks (unit|case|sizes|mode) the quick tier has as well"""
+    if _TIER[0] == 'thorough':
+        p = os.path.join(HERE, 'baseline', prop + '.thorough.json')
+        if os.path.exists(p):
+            return p
+    return os.path.join(HERE, 'baseline', prop + '.json')
+
+
 def load_baseline(prop):
-    p = os.path.join(HERE, 'baseline', prop + '.json')
+    p = _bpath(prop)
     if not os.path.exists(p):
         return set()
     return set(json.load(open(p))['discharged_clause_keys'])
@@ -49,7 +62,7 @@ def task_counts(recs):
 
 
 def load_baseline_task_counts(prop):
-    p = os.path.join(HERE, 'baseline', prop + '.json')
+    p = _bpath(prop)
     if not os.path.exists(p):
         return {}
     return json.load(open(p)).get('task_obligations', {})
@@ -57,7 +70,7 @@ def load_baseline_task_counts(prop):
 
 def load_baseline_vcs(prop):
     """hashes of the verification conditions (hypotheses + goal) that were discharged on the unchanged tree"""
-    p = os.path.join(HERE, 'baseline', prop + '.json')
+    p = _bpath(prop)
     if not os.path.exists(p):
         return set()
     return set(json.load(open(p)).get('discharged_vc_hashes', []))
@@ -76,8 +89,8 @@ def write_baseline(prop, all_recs):
                'comment_task_obligations': 'number of obligations each task (unit|case|mode) generated on the unchanged tree: a clean run that generates fewer than half '
                'of them for some task has silently lost coverage and is a checker error (exit 3)',
                'task_obligations': task_counts(all_recs)},
-              open(os.path.join(HERE, 'baseline', prop + '.json'), 'w'), indent=0)
-    print('baseline/%s.json: %d clause keys' % (prop, len(keys)))
+              open(os.path.join(HERE, 'baseline', prop + ('.thorough' if _TIER[0] == 'thorough' else '') + '.json'), 'w'), indent=0)
+    print('baseline/%s%s.json: %d clause keys' % (prop, '.thorough' if _TIER[0] == 'thorough' else '', len(keys)))
 
 
 def finish(prop, tier, seed, units, results, wall, verbose=False, partial=False, baseline_out=False):
@@ -197,6 +210,7 @@ def finish(prop, tier, seed, units, results, wall, verbose=False, partial=False,
         lines.append('  obligation %s refuted by %s; replay: %s' % (rec['name'], rec['backend'], rp.get('detail', rp['status'])))
         exit_code = 1
     baseline = load_baseline(prop)
+    baseline_tasks = set(load_baseline_task_counts(prop))
     still_undecided = []
     for rec in undecided:
         ck = clause_key(rec)
@@ -226,8 +240,10 @@ def finish(prop, tier, seed, units, results, wall, verbose=False, partial=False,
             # gave no verdict this time (load / seed) -- undecided, never a violation
             rec['reason'] = 'identical verification condition was discharged on the unchanged tree; no solver verdict this time (%s)' % (rec['reason'] or 'unknown')
             still_undecided.append(rec)
-        elif ck in baseline:
-            # this clause was discharged on the unchanged tree and now fails: reported as a violation with the solver's reason
+        elif ck in baseline and '%s|%s|%s' % (rec['_task']['unit'], rec['_task']['case'], rec['_task']['mode']) in baseline_tasks:
+            # this clause was discharged on the unchanged tree (in this very task: same unit, case, sizes, mode) and now fails: reported
+            # as a violation with the solver's reason.  A task the baseline has never seen (e.g. a larger size of the thorough tier
+            # without a thorough baseline) stays undecided: no verdict on a NEW formula says nothing about a change of the code.
             if ck in reported_ck:
                 continue
             reported_ck.add(ck)
@@ -333,6 +349,7 @@ def write_evidence(prop, tier, seed, units, results, proof_recs, bounded_recs, v
     ev = {
         'property_id': prop, 'tier': tier, 'seed': seed, 'level': 'proof',
         'coverage': {
+            'library_contract_conformance': os.environ.get('PYVC_CONFORMANCE', 'not run'),
             'obligations': len(proof_recs),
             'discharged': sum(1 for r in proof_recs if r['verdict'] == 'proved'),
             'checker_cmd': './check %s --tier %s' % (prop, tier),
